@@ -1258,7 +1258,8 @@ THREAD_COLLIDE = THREAD_SMOKE.replace(
     "PA.open = slow_open\n"
     "barrier = threading.Barrier(n_workers)\n", 1).replace(
     "        for i in range(w, n_subjects, n_workers):\n            try:\n",
-    "        for i in range(n_subjects):\n            try:\n                barrier.wait(30)\n", 1)
+    "        for i in range(n_subjects):\n            try:\n                try:\n                    barrier.wait(120)\n"
+    "                except threading.BrokenBarrierError:\n                    pass          # a slow machine only loses the synchronisation\n", 1)
 assert THREAD_COLLIDE != THREAD_SMOKE and "barrier.wait" in THREAD_COLLIDE and "PA.open = slow_open" in THREAD_COLLIDE
 
 
